@@ -179,10 +179,44 @@ def real_pool_case(args):
     return rec
 
 
+def touching_case(seed, rng):
+    """a hand-made segmentation with touching segments: an L-shaped single-peaked parent with a bright neighbour in the corner of its
+    bounding box; a pixel of the parent next to the neighbour is slightly brighter than its surroundings (an 'object' that lies mostly in
+    the neighbour and pokes fewer than npixels pixels into the parent must not become a child)"""
+    from photutils.segmentation import SegmentationImage, deblend_sources
+    import photutils.utils._verif as V
+    n1, n2 = rng.randint(9, 15), rng.randint(3, 6)
+    h, w = rng.randint(6, 9), n1 + 6
+    r0 = rng.randint(2, h - 4)
+    peak = rng.randint(1, 3)
+    prof = [max(8, int(100 * 0.5 ** (abs(k - peak - 1) / 1.2))) for k in range(n1)]
+    data = np.zeros((h, w)); seg = np.zeros((h, w), dtype=int)
+    data[r0, 3:3 + n1] = prof; data[r0 + 1, 3:3 + n1 - n2] = prof[:n1 - n2]
+    seg[r0, 3:3 + n1] = 1; seg[r0 + 1, 3:3 + n1 - n2] = 1
+    data[r0 + 1, 3 + n1 - n2:3 + n1] = rng.randint(70, 120); seg[r0 + 1, 3 + n1 - n2:3 + n1] = 2
+    bump = 3 + n1 - n2 + rng.randint(0, n2 - 1)
+    data[r0, bump] = rng.randint(40, 70)                       # brighter than its neighbours in the parent, next to segment 2
+    if rng.random() < 0.5:                                     # mirrored / transposed variants
+        data, seg = data[:, ::-1].copy(), seg[:, ::-1].copy()
+    if rng.random() < 0.3:
+        data, seg = data.T.copy(), seg.T.copy()
+    segm = SegmentationImage(seg)
+    kw = dict(npixels=rng.choice([n2, n2 + 1, 5]), nlevels=rng.choice([16, 32]), contrast=rng.choice([0, 0.001]), mode=rng.choice(['linear', 'exponential']),
+              connectivity=rng.choice([4, 8]), relabel=rng.random() < 0.5)
+    before = digest(segm)
+    with warnings.catch_warnings():
+        warnings.simplefilter('ignore')
+        serial = deblend_sources(data, segm, nproc=1, progress_bar=False, **kw)
+    kw['_inp_digest'] = before
+    return case_record(seed, data, segm, serial, serial, [], kw, 1, None)
+
+
 def random_refine_case(seed):
     """code -> spec: random blended noisy scene, random parameters; Refines decided by TLC"""
     from photutils.segmentation import deblend_sources, detect_sources
     rng = random.Random(seed)
+    if rng.random() < 0.15:
+        return touching_case(seed, rng)
     h, w = rng.randint(14, 26), rng.randint(14, 30)
     data = np.zeros((h, w))
     for _ in range(rng.randint(2, 7)):
@@ -205,6 +239,17 @@ def random_refine_case(seed):
         if rng.random() < 0.5 and segm.nlabels >= 2:      # label gaps / non-consecutive labels
             for l in rng.sample([int(x) for x in segm.labels], rng.randint(1, min(2, segm.nlabels))):
                 segm.reassign_label(l, int(segm.max_label) + rng.randint(1, 4))
+        if rng.random() < 0.3:
+            # second pass: the input is an already deblended map (touching segments inside each other's bounding boxes), deblended
+            # again on differently processed data (e.g. segmentation from the smoothed detection image, deblending on the raw one)
+            try:
+                first = deblend_sources(data, segm, npixels=npix, nlevels=8, contrast=0.001, connectivity=conn, progress_bar=False)
+                if first.nlabels > segm.nlabels:
+                    from photutils.segmentation import SegmentationImage
+                    segm = SegmentationImage(first.data.copy())      # a plain map (no deblend bookkeeping carried over)
+                    data = data + np.random.default_rng(seed + 17).normal(0, 1.5, (h, w)) + 0.3 * gauss((h, w), rng.uniform(2, w - 2), rng.uniform(2, h - 2), 60.0, 1.2, 1.2)
+            except Exception:  # noqa
+                pass
         labels_arg = None
         if rng.random() < 0.3:
             labels_arg = sorted(rng.sample([int(x) for x in segm.labels], rng.randint(1, segm.nlabels)))
